@@ -174,7 +174,9 @@ class Points:
         return "{}:\n{}".format(self.__class__.__name__, self.coordinates)
 
     def _compute_slice(self, val):
-        if isinstance(val, tuple):
+        if isinstance(val, (tuple, list)):
+            # work on a copy: the last entry is replaced below, the key of the caller
+            # has to stay as it is
             val = list(val)
 
         if isinstance(val, (np.ndarray, torch.Tensor)) and val.dtype in (
